@@ -96,6 +96,15 @@ def crit_cond(name, op, n):
     return {"k": "cond", "l": name, "lcal": True, "op": op, "rk": "lit", "r": "", "rcal": False, "lit": crit.lit_num(False, n)}
 
 
+def enum_repeated_terms():
+    """a polynomial is the sum of ALL its terms, also when an exponent occurs twice"""
+    for terms in ([(rat(1, 2), 1), (rat(1, 4), 1)], [(rat(3), 0), (rat(1, 2), 1), (rat(-1), 0), (rat(1, 4), 1)], [(rat(1), 2), (rat(2), 0), (rat(1), 2)],
+                  [(rat(1, 2), 1), (rat(-1, 2), 1)]):
+        for rawn in (0, 1, 4, 7):
+            yield case(ptype("int", INT8, {"default": poly(terms), "context": []}), crit.tv_int(rawn))
+            yield case(ptype("float", F32, {"default": poly(terms), "context": []}), crit.tv_flt(rawn, 2))
+
+
 def enum_enums_bools_times():
     en = [{"raw": crit.tv_int(0), "label": "OFF"}, {"raw": crit.tv_int(1), "label": "ON"}, {"raw": crit.tv_int(5), "label": "FIVE"}]
     calsets = [NOCAL, {"default": poly([(rat(10), 0), (rat(3), 1)]), "context": []},
@@ -178,10 +187,12 @@ def run(ctx):
                 "ParameterType.parse_value built through constructors and through XML (explicit / omitted defaults) and compared "
                 "by Trace_Calib (value, class, raw_value, error kind). One type object per (type, route) decodes all its cases, in "
                 "shuffled order (history independence). distinct = (type, environment, raw, route).")
-    ctx.assumptions = ["coefficients, knots and raw values are dyadic with small magnitude so both IEEE double arithmetic and the "
+    ctx.assumptions = ["first-order spline interpolation and polynomials are double arithmetic on the raw value: raw integers that are not "
+                       "exactly representable as doubles are used with enumerations and zero-order splines only",
+                       "coefficients, knots and raw values are dyadic with small magnitude so both IEEE double arithmetic and the "
                        "32-bit rational arithmetic of the specification are exact; general decimal coefficients are outside the oracle",
                        "a failing calibrator on an enumerated / boolean encoding is unspecified (any outcome accepted)"]
-    cases = list(enum_splines()) + list(enum_polys()) + list(enum_contexts()) + list(enum_enums_bools_times())
+    cases = list(enum_splines()) + list(enum_polys()) + list(enum_contexts()) + list(enum_enums_bools_times()) + list(enum_repeated_terms())
     ctx.extra["A_cases"] = len(cases)
     rng = ctx.rng
     rcases = [rand_case(rng) for _ in range(6000 if q else 60000)]
@@ -216,7 +227,24 @@ def run(ctx):
                 obs = calib.observe(rp, [], rr, via, od, unshift=B)
                 lines.append(dict(c, obs=obs, via=via + ("-defaults-omitted" if od else ""), src="S", nprev=0, shiftbase=bi))
                 ns += 1
-    ctx.extra["S_wide_enumeration_cases"] = ns
+    # splines over a 64-bit encoding with knots at 2^53 + {0, 2, 4, 8, 16} (all exactly representable) and raw values 2^53 + 0..17 on
+    # the real side: odd raw values are NOT representable as floats, so a query converted to float lands on a knot or in the wrong segment
+    for order in (0, 1):
+        for extrap in (False, True):
+            for lo in (0, 1, 2):
+                pts = [{"x": rat(XS[lo + j] * 2 if False else [0, 2, 4, 8, 16][lo + j]), "y": YS[(lo + j) % len(YS)]} for j in range(3)]
+                sp = {"default": {"k": "spline", "order": order, "extrap": extrap, "pts": pts}, "context": []}
+                for rawn in range(0, 18):
+                    if order == 1 and rawn % 2:
+                        continue        # first-order interpolation is double arithmetic on the query: a raw value that is not a double
+                                        # is outside the exact oracle (zero order is pure comparison and exact for every integer)
+                    via, od = (("ctor", False), ("xml", False), ("xml", True))[(rawn + lo) % 3]
+                    c = case(ptype("int", INT64, sp), crit.tv_int(rawn))
+                    rp, rr = calib.shifted_enum(c["pt"], c["raw"], 2 ** 53)
+                    obs = calib.observe(rp, [], rr, via, od, unshift=2 ** 53)
+                    lines.append(dict(c, obs=obs, via=via + ("-defaults-omitted" if od else ""), src="S", nprev=0, shiftbase=0))
+                    ns += 1
+    ctx.extra["S_wide_enumeration_and_spline_cases"] = ns
     for ln in lines:
         ctx.count((ln["src"], ln["via"], repr(ln["pt"]), repr(ln["env"]), repr(ln["raw"]), ln.get("shiftbase", -1)))
     rej = tables.validate_lines(ctx, "Trace_Calib", lines, "calib", jobs=16)
